@@ -136,6 +136,9 @@ def _select(rng, wview, bview):
     paths = sorted({v[5] for v in wview.values()} | {v[5] for v in bview.values()})
     mode = rng.choice(["none", "none", "specific", "specific", "exclude", "both"])
     spec, excl = None, None
+    if rng.random() < 0.06:
+        # the API's "commit no files": an empty selection is a selection, not the absence of one
+        return "empty-specific", [], None
     if mode in ("specific", "both") and paths:
         spec = rng.sample(paths, min(len(paths), rng.randint(1, 3)))
     if mode in ("exclude", "both") and paths:
